@@ -34,6 +34,18 @@ theorem torn_file_rejected (es : List Entry) (c : Nat) (b : Bytes) (hs : save es
   simp only [List.length_append, encLE_length, hm, hv] at hk
   exact load_prefix_fails _ (by rw [hpl]; exact hsc.size_lt) k (by omega)
 
+/-- the same for ANY file laid out per the documentation - whatever tool wrote it, with any coordinate and row-id word sizes:
+every strict prefix is rejected (the size field is the real payload length, so the mapping step fails) -/
+theorem torn_layout_rejected (es : List Entry) (c wi wr : Nat)
+    (hsize : (payload es c (arityOf es) wi wr).length < 2^64) (k : Nat)
+    (hk : k < (encodeWith es c wi wr).length) :
+    ∃ e, load ((encodeWith es c wi wr).take k) = .error e ∧ TornErr e := by
+  have hm : Gen.indxMagic.length = 4 := by decide
+  have hv : Gen.indxVersion.length = 4 := by decide
+  unfold encodeWith at hk ⊢
+  simp only [List.length_append, encLE_length, hm, hv] at hk
+  exact load_prefix_fails _ hsize k (by omega)
+
 /-- in particular no strict prefix ever loads -/
 theorem torn_file_never_loads (es : List Entry) (c : Nat) (b : Bytes) (hs : save es c = .ok b)
     (k : Nat) (hk : k < b.length) : ∀ r, load (b.take k) ≠ .ok r := by
